@@ -406,6 +406,9 @@ func (env *SpecEnv) index(base, idx Val, n *SNode) Val {
 	st := env.st
 	for p := env.absProbe; p != nil; p = p.outer {
 		if idx.S != p.name {
+			if termMentions(idx.S, p.name) {
+				p.mixedUse = true // the variable also occurs inside an index expression (s[4*k]): keep it relative
+			}
 			continue
 		}
 		o := ""
@@ -615,7 +618,11 @@ func (env *SpecEnv) evalQuant(n *SNode) Val {
 		if off == "" && env.absProbe.nestedOff != "" && !env.absProbe.rawUse {
 			off = env.absProbe.nestedOff
 		}
+		mixed := env.absProbe.mixedUse
 		env.absProbe = saved
+		if mixed && env.st != nil && env.st.fc != nil && env.st.fc.Contract != nil && env.st.fc.Contract.RelIdx {
+			off = "" // mixed uses (k and 4*k as indices): the absolute form would hide the relative instances
+		}
 		if off != "" && termMentions(off, names[0]) {
 			off = "" // the sequence itself depends on the bound variable (e.g. u[j].next[j]): stay relative
 		}
@@ -644,6 +651,7 @@ func (env *SpecEnv) evalQuant(n *SNode) Val {
 type absProbe struct {
 	outer     *absProbe // probes of enclosing quantifiers
 	nestedOff string    // offset of a sequence the variable indexes only inside a nested quantifier
+	mixedUse  bool      // the variable also occurs inside a compound index expression
 	rawUse    bool      // the variable also indexes a ghost sequence
 	name string
 	off  string
